@@ -63,6 +63,30 @@ Proof.
 Qed.
 Print Assumptions C01_argument_factorisation_preserves_the_integrand.
 
+(* the same statement read as the property reads: with the test function replaced by basis function i and the trial
+   function by basis function j (argument component a of argument number n takes the tabulated value tab a i resp.
+   tab a j at the quadrature point), the integrand I(phi_i, psi_j) is the sum over argkeys of factor x table entries:
+   what the generated block loops accumulate into A[i][j] *)
+Theorem C01_integrand_at_basis_functions :
+  forall (R : Type) (r0 r1 : R) (radd rmul rsub : R -> R -> R) (ropp rinv rconj : R -> R),
+    Ring_theory.ring_theory r0 r1 radd rmul rsub ropp eq ->
+    (forall x y, rconj (radd x y) = radd (rconj x) (rconj y)) ->
+    (forall x y, rconj (rmul x y) = rmul (rconj x) (rconj y)) ->
+    rconj r0 = r0 -> rconj r1 = r1 ->
+    forall (truth : R -> bool) (atom : nat -> R) (op1 : nat -> R -> R) (op2 : nat -> R -> R -> R)
+           (argn : nat -> nat) (tab : nat -> nat -> R),
+    (forall a k, rconj (tab a k) = tab a k) ->
+    forall (e : sx) (m : fac) (i j : nat),
+      wf argn e -> factorize e = Some m -> m <> [] ->
+      let basis := fun a => tab a (if Nat.eqb (argn a) 0 then i else j) in
+      eval R r0 r1 radd rmul rinv rconj truth basis atom op1 op2 e =
+      fsum R r0 r1 radd rmul rinv rconj truth basis atom op1 op2 m.
+Proof.
+  intros R r0 r1 radd rmul rsub ropp rinv rconj Rth ca cm c0 c1 truth atom op1 op2 argn tab treal e m i j W H Hne basis.
+  eapply C01_argument_factorisation_preserves_the_integrand; eauto.
+Qed.
+Print Assumptions C01_integrand_at_basis_functions.
+
 (* the dictionary has one entry per argkey, keys are sorted and mention only arguments of the integrand *)
 Theorem C01_factorisation_keys_are_canonical :
   forall (argn : nat -> nat) (e : sx) (m : fac),
